@@ -70,15 +70,26 @@ def cases(rng, tier, shard, nshards):
             pts, meta = gen.curve(rng, nmax=150, nmin=60)
         else:
             pts, meta = gen.curve(rng, nmax=60)
-        yield {'points': pts, 'family': meta['family'], 'layout': gen.pick_layout(rng, pts),
-               'distance': pick(rng, DISTANCES), 'order': pick(rng, ORDERS)}
+        c = {'points': pts, 'family': meta['family'], 'layout': gen.pick_layout(rng, pts),
+             'distance': pick(rng, DISTANCES), 'order': pick(rng, ORDERS)}
+        if rng.random() < 0.35 and len(pts) <= 40:
+            # history: a second chain on the SAME array under another distance / ordering (state kept between
+            # calls must not leak from one configuration into the next)
+            c['follow'] = {'distance': pick(rng, DISTANCES), 'order': pick(rng, ORDERS)}
+        yield c
 
 
 def run_case(ctx, mods, case):
-    rdp = mods['rdp']
     pts = gen.present(case['points'], case['layout'])
+    run_chain(ctx, mods, case, pts, case['distance'], case['order'])
+    if case.get('follow'):
+        ctx.h('history', 'second chain on the same array')
+        run_chain(ctx, mods, case, pts, case['follow']['distance'], case['follow']['order'])
+
+
+def run_chain(ctx, mods, case, pts, dn, on):
+    rdp = mods['rdp']
     n = len(pts)
-    dn, on = case['distance'], case['order']
     d, o = distance(mods, dn), order(mods, on)
     dist = install.orig('linear_fit', 'shortest_distance_points' if dn == 'shortest' else 'perpendicular_distance_points')
     prev = None
